@@ -18,7 +18,8 @@ RunFails(o, run) ==
       def == Defined(o.ins, o.l, r)
       F(why) == <<[store |-> run.store, why |-> why, defined |-> def, status |-> run.status,
                    msg |-> IF "msg" \in DOMAIN run THEN run.msg ELSE "", kf |-> KF_C08(o, run, why)]>> IN
-  IF run.status = "setuperr" THEN <<>>          \* the operand itself cannot be built on this store (a symbol list with a number on Simple)
+  IF run.status = "na" THEN <<>>                \* this store has no working-copy operation (via = "clone" on BasicGarnishData)
+  ELSE IF run.status = "setuperr" THEN <<>>          \* the operand itself cannot be built on this store (a symbol list with a number on Simple)
   ELSE IF run.status = "panic" THEN F("panic")
   ELSE IF def THEN (IF run.status = "ok" /\ Defers(run.log) # <<>> THEN F("defined combination offered to the host") ELSE <<>>)
   ELSE IF run.status # "ok" THEN F("execution failed")
@@ -37,7 +38,7 @@ RunFails(o, run) ==
 Fails(o) == LET RECURSIVE Cat(_)
                 Cat(i) == IF i > Len(o.runs) THEN <<>> ELSE RunFails(o, o.runs[i]) \o Cat(i + 1) IN Cat(1)
 Report == Fails(Obs[c]) = <<>> \/ PrintT(<<"FAIL", ToJson([c |-> c, ins |-> Obs[c].ins, l |-> Obs[c].l, r |-> IF Obs[c].unary THEN U ELSE Obs[c].r,
-                                                         mode |-> Obs[c].mode, fails |-> Fails(Obs[c])])>>)
+                                                         mode |-> Obs[c].mode, via |-> IF "via" \in DOMAIN Obs[c] THEN Obs[c].via ELSE "direct", fails |-> Fails(Obs[c])])>>)
 \* vacuity guard: how many observations lie in the undefined part
 Stat == Defined(Obs[c].ins, Obs[c].l, IF Obs[c].unary THEN U ELSE Obs[c].r) \/ PrintT(<<"STAT", ToJson([c |-> c, undefined |-> TRUE])>>)
 ==============================================================================
